@@ -3,11 +3,14 @@ C16 — TLS material is bound to the right listener and never weakened silently.
 Property theorems about `NGF.Model.TlsBind` (the functions the driver runs and the correspondence compares
 with the real code), expectation lemmas over the facts regenerated from /repo, witnesses of the two places
 where the current code does not satisfy the property at full strength, and their `_partial` theorems.
+The theorems over the GENERATED CONFIGURATION (pipeline level: `PipelineTls.genT`) are in NGF/Props/C16Pipeline.lean,
+imported here.
 -/
 import NGF.Model.TlsBind
 import NGF.Proofs.TlsBind
 import NGF.Proofs.TlsOwner
 import NGF.Generated.TlsFacts
+import NGF.Props.C16Pipeline
 
 namespace NGF.Tls
 
